@@ -92,6 +92,18 @@ SCENARIOS = {
                         data_retention_timeout='0s'),
                    dict(name='proid.small', demand=[512, 1, 512], affinity='small')],
         groups={}, apps=['a1', 'a2', 'a3', 'a4', 'a5']),
+    # a server that starts a few MB SMALLER and re-registers with the full size
+    'big2': dict(
+        racks={'rack:r1': ['s1']}, partitions=[], traits=[],
+        sprofiles=[dict(cap=[4096, 4, 2097152], label='_default', traits=[]),
+                   dict(cap=[4096, 4, 2097140], label='_default', traits=[])],
+        server_init={'s1': 2},
+        allocsets=[[_alloc('proid/x', '_default', [('proid.*', 1)])]],
+        aprofiles=[dict(name='proid.disk', demand=[512, 0, 1048570], affinity='disk'),
+                   dict(name='proid.mem', demand=[512, 0, 512], affinity='mem'),
+                   dict(name='proid.small', demand=[512, 1, 512], affinity='small'),
+                   dict(name='proid.tail', demand=[64, 0, 12], affinity='tail')],
+        groups={}, apps=['a1', 'a2', 'a3']),
     # the constants of MasterLag.tla: two equal servers, two small instances
     'lag': dict(
         racks={'rack:r1': ['s1', 's2']}, partitions=[], traits=[],
